@@ -377,6 +377,7 @@ def explore(
         "error": None,
     }
     cover_all: set = set()
+    unknown_witnesses: List[Dict[str, Any]] = []
     _QUERIES["n"] = 0
     _QUERIES["t"] = 0.0
     _SYMBOLIC_MODE = True
@@ -445,6 +446,14 @@ def explore(
                     key = type(e).__name__ + ": " + str(e)[:120]
                     res["unknown_reasons"][key] = res["unknown_reasons"].get(key, 0) + 1
                     status = VerificationStatus.UNKNOWN
+                    # concolic fallback: keep a concrete witness of this (unsupported / timed-out) path; it is run
+                    # concretely after the exploration so that a violation on it is not lost with the path
+                    if len(unknown_witnesses) < 6:
+                        try:
+                            w = deep_realize(dict(pre_args.arguments))
+                            unknown_witnesses.append({k: _jsonable(v) for k, v in w.items()})
+                        except BaseException:
+                            pass
                 if space.status_cap is not None:
                     # CrossHair caps the verdict when a float was modelled as a real. We report that explicitly
                     # (float_as_real) instead: the IEEE behaviour of the kernels is decided by Engine T.
@@ -466,7 +475,25 @@ def explore(
         res["error"] = type(e).__name__ + ": " + str(e)[:500] + "\n" + traceback.format_exc()[-3000:]
     finally:
         _SYMBOLIC_MODE = False
-    res["cover"] = sorted(cover_all)
+    if res["status"] not in ("REFUTED", "ERROR") and unknown_witnesses:
+        res["unknown_witnesses_run_concretely"] = 0
+        for w in unknown_witnesses:
+            kw = dict(w)
+            kw.update(fixed)
+            try:
+                if extra_assume is not None and not extra_assume(kw):
+                    continue
+                res["unknown_witnesses_run_concretely"] += 1
+                fn(**kw)
+            except PropertyViolated as e:
+                res["status"] = "REFUTED"
+                res["cex"] = {
+                    "args": w, "kind": "violation", "exc_type": "PropertyViolated", "message": str(e)[:2000], "trace": "",
+                    "note": "found by running the concrete witness of a path the symbolic engine could not complete",
+                }
+                break
+            except (AssumptionFailed, Exception):
+                continue
     res["cpu_s"] = round(time.process_time() - t_start, 3)
     res["wall_s"] = round(time.time() - w_start, 3)
     res["smt_queries"] = _QUERIES["n"]
